@@ -89,6 +89,23 @@ def judge(case):
                 mca = min_chord(upper, also_antipodes=True)
                 if mca < 0.6 / np.cbrt(N):
                     msgs.append(f"{alg}_{N}: min chord (incl. antipodes) {mca:.4f} < 0.6/cbrt(N) = {0.6 / np.cbrt(N):.4f}")
+    if not dim4 and 2 <= N <= 80 and not case.get("by_name"):
+        # the same direction grid while it is in use inside a (single-shell and two-shell) full grid: still N unit rows
+        try:
+            from molgri.space.fullgrid import FullGrid
+            for t in ("[0.3]", "[0.2, 0.45]"):
+                with quiet():
+                    fg = FullGrid("1", f"{alg}_{N}", t)
+                    fg.get_full_grid_as_array()
+                    fg.get_position_grid().get_position_grid_as_array()
+                    held = np.asarray(fg.get_position_grid().get_o_grid().get_grid_as_array())
+                if held.shape != upper.shape or not np.array_equal(held, upper):
+                    msgs.append(f"{alg}_{N}: the direction grid held by FullGrid('1', '{alg}_{N}', '{t}') is no longer the generated grid after "
+                                f"the position array was requested (row norms {np.linalg.norm(held, axis=1).min():.4g}.."
+                                f"{np.linalg.norm(held, axis=1).max():.4g})")
+                    break
+        except Exception as e:
+            msgs.append(f"{alg}_{N}: FullGrid use raised {type(e).__name__}: {e}")
     if case.get("by_name") or alg.startswith("zero"):
         want = np.array([[0, 0, 0, 1.0]]) if dim4 else np.array([[0, 0, 1.0]])
         if not np.array_equal(upper, want):
